@@ -40,17 +40,22 @@ def roundHalfEven (q : Rat) : Int :=
   else if r > 1/2 then f + 1
   else if f % 2 = 0 then f else f + 1
 
-/-- Round-to-nearest-even onto the binary32 grid (24-bit significand, min exponent −126,
-    gradual underflow).  No overflow: results above `f32::MAX` keep growing (callers that care
-    check the magnitude). -/
-def rnd (q : Rat) : Rat :=
+/-- Round-to-nearest-even onto a binary floating-point grid with `prec`-bit significands and
+    smallest quantum `2^qmin` (gradual underflow).  No overflow: results above the format's
+    maximum keep growing (callers that care check the magnitude). -/
+def rndTo (prec : Nat) (qmin : Int) (q : Rat) : Rat :=
   if q = 0 then 0 else
   let a := if q < 0 then -q else q
   let e := log2Floor a
-  let qe : Int := if e - 23 < -149 then -149 else e - 23
+  let qe : Int := if e - ((prec : Int) - 1) < qmin then qmin else e - ((prec : Int) - 1)
   let m := roundHalfEven (a / pow2 qe)
   let v := (m : Rat) * pow2 qe
   if q < 0 then -v else v
+
+/-- binary32 (f32) rounding -/
+def rnd (q : Rat) : Rat := rndTo 24 (-149) q
+/-- binary64 (f64) rounding -/
+def rnd64 (q : Rat) : Rat := rndTo 53 (-1074) q
 
 def maxFinite : Rat := ((2 ^ 24 - 1 : Nat) : Rat) * pow2 104
 
@@ -65,6 +70,19 @@ def decode (bits : UInt32) : Option Rat :=
     let mag : Rat :=
       if ex = 0 then (man : Rat) * pow2 (-149)
       else ((man + 2 ^ 23 : Nat) : Rat) * pow2 ((ex : Int) - 150)
+    some (if sign = 1 then -mag else mag)
+
+/-- Exact value of a finite binary64 bit pattern; `none` for ±∞ and NaN. -/
+def decode64 (bits : UInt64) : Option Rat :=
+  let b : Nat := bits.toNat
+  let sign : Nat := b / 2 ^ 63
+  let ex : Nat := (b / 2 ^ 52) % 2048
+  let man : Nat := b % 2 ^ 52
+  if ex = 2047 then none
+  else
+    let mag : Rat :=
+      if ex = 0 then (man : Rat) * pow2 (-1074)
+      else ((man + 2 ^ 52 : Nat) : Rat) * pow2 ((ex : Int) - 1075)
     some (if sign = 1 then -mag else mag)
 
 /-- Bit pattern of a rational that lies on the binary32 grid (positive zero for 0). -/
